@@ -1057,3 +1057,148 @@ func runTagUse(c *core.Ctx) []core.Obligation {
 	}
 	return b.out
 }
+
+// R-THRIFTTYPE — the thrift type announced in a field header is the type of the payload that the
+// field's codec writes: in particular enum fields, whose codec is the i32 codec whatever the Go
+// integer type, are announced as I32 by both the struct encoder and the struct decoder.
+func init() {
+	Register(&Rule{
+		ID:    "R-THRIFTTYPE",
+		Doc:   "in the struct encoder and decoder compilers of thrift, the value stored in the field descriptor's typ comes from a function that, like the codec selector (encode/decodeFuncStructFieldOf), tests the enum flag and returns the constant I32 on that branch; the codec selected on the same branch is the 32-bit one (calls WriteInt32 / ReadInt32)",
+		Props: []string{"C08", "C04", "C13"},
+		Min:   map[string]int{"C08": 4, "C04": 4, "C13": 4},
+		Run:   runThriftType,
+	})
+}
+
+func thriftConst(c *core.Ctx, name string) (int64, bool) {
+	pp := c.Pkg("thrift")
+	if pp == nil {
+		return 0, false
+	}
+	k, _ := pp.Types.Scope().Lookup(name).(*types.Const)
+	if k == nil {
+		return 0, false
+	}
+	v, ok := constantUint(k)
+	return int64(v), ok
+}
+
+// underEnumFlag: blk is dominated by the true edge of flags.have(enum).
+func underEnumFlag(blk *ssa.BasicBlock, enumBit int64) bool {
+	for _, cond := range trueAtoms(blk, 0) {
+		call, ok := cond.(*ssa.Call)
+		if !ok {
+			continue
+		}
+		if f := staticCallee(call.Common()); f != nil && f.Name() == "have" && len(call.Common().Args) == 2 {
+			if k, ok := constInt(call.Common().Args[1]); ok && k == enumBit {
+				return true
+			}
+		}
+	}
+	return false
+}
+
+func runThriftType(c *core.Ctx) []core.Obligation {
+	b := newOb(c, "R-THRIFTTYPE")
+	props := []string{"C08", "C04", "C13"}
+	i32, ok1 := thriftConst(c, "I32")
+	enumBit, ok2 := thriftConst(c, "enum")
+	if !ok1 || !ok2 {
+		b.addP(props, core.Undecided, "thrifttype", "-", "thrift.I32 / thrift.enum constants not found")
+		return b.out
+	}
+	for _, side := range []struct {
+		name, desc, selector, prim string
+	}{
+		{"writer", "structEncoderField", "encodeFuncStructFieldOf", "WriteInt32"},
+		{"reader", "structDecoderField", "decodeFuncStructFieldOf", "ReadInt32"},
+	} {
+		// 1. the typ stored in the descriptor
+		key := "thrifttype:enum:announced-as-i32:" + side.name
+		var typFn *ssa.Function
+		var at ssa.Instruction
+		for _, fn := range c.RepoFunctions() {
+			if !strings.HasPrefix(shortName(fn), "thrift.") {
+				continue
+			}
+			for _, blk := range fn.Blocks {
+				for _, in := range blk.Instrs {
+					st, ok := in.(*ssa.Store)
+					if !ok {
+						continue
+					}
+					fa, ok := st.Addr.(*ssa.FieldAddr)
+					if !ok || fieldNameOf(fa) != "typ" || !strings.HasSuffix(typeShort(fa.X.Type()), side.desc) {
+						continue
+					}
+					at = st
+					if call, ok := st.Val.(*ssa.Call); ok {
+						typFn = staticCallee(call.Common())
+					}
+				}
+			}
+		}
+		switch {
+		case at == nil:
+			b.addP(props, core.Undecided, key, "-", "no store to "+side.desc+".typ found")
+		case typFn == nil || typFn.Blocks == nil:
+			b.addP(props, core.Violation, key, c.InstrPos(at), side.desc+".typ is not computed by a repository function: cannot see an enum case")
+		default:
+			okEnum := false
+			for _, r := range returnsOf(typFn) {
+				if len(r.Results) == 1 {
+					if k, isK := constInt(r.Results[0]); isK && k == i32 && underEnumFlag(r.Block(), enumBit) {
+						okEnum = true
+					}
+				}
+			}
+			if okEnum {
+				b.addP(props, core.Discharged, key, c.InstrPos(at), fmt.Sprintf("%s returns I32 under flags.have(enum)", shortName(typFn)))
+			} else {
+				b.addP(props, core.Violation, key, c.InstrPos(at), fmt.Sprintf("the type announced for a field (%s) has no enum case returning I32, while the field's codec writes enums as 32-bit integers: a reader that skips the field by its announced type (I8, I64) consumes the wrong number of bytes and loses the fields that follow", shortName(typFn)))
+			}
+		}
+		// 2. the codec selected under the enum flag is the 32-bit one
+		key2 := "thrifttype:enum:codec-is-i32:" + side.name
+		sel := c.Lookup("thrift." + side.selector)
+		if sel == nil {
+			b.addP(props, core.Undecided, key2, "-", "thrift."+side.selector+" not found")
+			continue
+		}
+		good, n := true, 0
+		for _, r := range returnsOf(sel) {
+			if len(r.Results) != 1 || !underEnumFlag(r.Block(), enumBit) {
+				continue
+			}
+			rv := r.Results[0]
+			if ct, ok := rv.(*ssa.ChangeType); ok {
+				rv = ct.X
+			}
+			f, ok := rv.(*ssa.Function)
+			if !ok {
+				continue
+			}
+			n++
+			calls := false
+			for _, ci := range callsIn(realFunc(c, f)) {
+				if ci.Common().IsInvoke() && ci.Common().Method.Name() == side.prim {
+					calls = true
+				}
+			}
+			if !calls {
+				good = false
+			}
+		}
+		switch {
+		case n == 0:
+			b.addP(props, core.Undecided, key2, c.FuncPos(sel), "no codec is returned under flags.have(enum)")
+		case good:
+			b.addP(props, core.Discharged, key2, c.FuncPos(sel), "the enum codec calls "+side.prim)
+		default:
+			b.addP(props, core.Violation, key2, c.FuncPos(sel), "the codec selected for enum fields does not call "+side.prim+": its payload is not the i32 that the field header announces")
+		}
+	}
+	return b.out
+}
